@@ -187,3 +187,71 @@ func cropStateCmd(args []string) {
 		stdout.Flush()
 	}
 }
+
+// ---------------------------------------------------------------------------------------------
+//	vh soilstate -jobs <file.json> [-from k]
+// jobs: [{"id":..,"file":path,"csv":bool,"sid":"001","gw":bool}] -> the SoilFileData of the REAL LoadSoil /
+// LoadSoilCSV: {"id":..,"z":[AZHO,WURZMAX,useGW(GRHI),DRAIDEP,N, UKT[1],LD[0], UKT[2],LD[1],..],
+// "f":[DRAIFAK, per horizon BULK CGEHALT CNRATIO NGEHALT HUMUS STEIN FKA WP GPV SSAND SLUF TON],"s":[BART..]}
+// or {"id":..,"err":..} for an error return.
+
+func init() { commands["soilstate"] = soilStateCmd }
+
+type soilJob struct {
+	ID   int    `json:"id"`
+	File string `json:"file"`
+	CSV  bool   `json:"csv"`
+	SID  string `json:"sid"`
+	GW   bool   `json:"gw"`
+}
+
+func soilStateCmd(args []string) {
+	fs := flag.NewFlagSet("soilstate", flag.ExitOnError)
+	jobsFile := fs.String("jobs", "", "json job list")
+	from := fs.Int("from", 0, "first job index")
+	fs.Parse(args)
+	raw, err := os.ReadFile(*jobsFile)
+	if err != nil {
+		panic(err)
+	}
+	var jobs []soilJob
+	if err := json.Unmarshal(raw, &jobs); err != nil {
+		panic(err)
+	}
+	session := hermes.NewHermesSession()
+	defer session.Close()
+	for k := *from; k < len(jobs); k++ {
+		j := jobs[k]
+		fmt.Fprintf(os.Stderr, "JOB %d\n", k)
+		hp := hermes.NewHermesFilePath(".", "x", "x", "", "")
+		hp.OverrideBofile(j.File)
+		var sd hermes.SoilFileData
+		var err error
+		if j.CSV {
+			sd, err = hermes.LoadSoilCSV(j.GW, "[v]", &hp, j.SID, session)
+		} else {
+			sd, err = hermes.LoadSoil(j.GW, "[v]", &hp, j.SID, session)
+		}
+		if err != nil {
+			emit(jobj{"id": j.ID, "err": err.Error()})
+			stdout.Flush()
+			continue
+		}
+		z := []int{sd.AZHO, sd.WURZMAX, sd.GRHI, sd.DRAIDEP, sd.N}
+		f := []float64{sd.DRAIFAK}
+		s := []string{}
+		n := sd.AZHO
+		if n > 10 {
+			n = 10
+		}
+		for i := 0; i < n; i++ {
+			z = append(z, sd.UKT[i+1], sd.LD[i])
+			f = append(f, sd.BULK[i], sd.CGEHALT[i], sd.CNRATIO[i], sd.NGEHALT[i], sd.HUMUS[i], sd.STEIN[i], sd.FKA[i], sd.WP[i],
+				sd.GPV[i], sd.SSAND[i], sd.SLUF[i], sd.TON[i])
+			s = append(s, sd.BART[i])
+		}
+		consistent := sd.GRLO == sd.GRHI && sd.GRW == float64(sd.GRHI) && sd.GW == float64(sd.GRHI) && (n == 0 || sd.CNRAT1 == sd.CNRATIO[0])
+		emit(jobj{"id": j.ID, "z": z, "f": hxs(f), "s": s, "consistent": consistent})
+		stdout.Flush()
+	}
+}
